@@ -22,7 +22,7 @@ func init() {
 		p := asam.GenPair(rt, asam.GenOpts{VPN: true})
 		c := asaVPNCase("C01", p)
 		vpnOps(ev, p)
-		judge(rt, ev, oracleC01asaVPN, c, func() any { return c })
+		judge(rt, ev, oracles["C01/"+familyASAVPN], c, func() any { return c })
 	})
 	addArm("C07", "asa-vpn", func(rt *rapid.T, ev *evid.Collector) {
 		p := asam.GenPair(rt, asam.GenOpts{VPN: true, Decorate: true})
